@@ -78,7 +78,8 @@ type PG struct {
 	Infeasible *LP
 }
 
-const maxStates = 400000
+var maxStates = 400000
+
 const maxTermDepth = 30
 
 func opaque(name string) *Term { return &Term{Op: "opaque", Name: "?" + name} }
@@ -388,8 +389,41 @@ func (pg *PG) stateKey(n *Node, st map[int]Val, facts map[string]bool) string {
 func (pg *PG) intern(n *Node, st map[int]Val, facts map[string]bool) (*PState, bool) {
 	// prune to live variables
 	live := pg.live[n.ID]
+	var held map[int]bool // dead address-taken variables some remaining value points to
 	for id := range st {
-		if !live[id] && !pg.G.Vars[id].Pinned {
+		if live[id] {
+			continue
+		}
+		v := pg.G.Vars[id]
+		if !v.Pinned {
+			delete(st, id)
+			continue
+		}
+		if v.Captured {
+			continue
+		}
+		// address taken only: kept while some other value holds the address
+		if held == nil {
+			held = map[int]bool{}
+			for {
+				grew := false
+				for id2, val := range st {
+					if !live[id2] && !held[id2] && !pg.G.Vars[id2].Captured && pg.G.Vars[id2].Pinned {
+						continue // itself a candidate: counts only once it is held
+					}
+					for _, a := range val.T.addrVars() {
+						if !held[a] {
+							held[a] = true
+							grew = true
+						}
+					}
+				}
+				if !grew {
+					break
+				}
+			}
+		}
+		if !held[id] {
 			delete(st, id)
 		}
 	}
@@ -1141,8 +1175,9 @@ func isIntLit(s string) bool {
 // orderFacts: integer trichotomy along one path. An established Lt/Eq atom
 // over a pair of terms implies the atoms that follow from it together with the
 // negative ordering facts already collected for the same pair:
-//   a<b  =>  !(b<a), a!=b        !(a<b) & !(b<a)  =>  a==b
-//   !(a<b) & a!=b  =>  b<a       a==b  =>  !(a<b), !(b<a)   (only if the pair was compared before)
+//
+//	a<b  =>  !(b<a), a!=b        !(a<b) & !(b<a)  =>  a==b
+//	!(a<b) & a!=b  =>  b<a       a==b  =>  !(a<b), !(b<a)   (only if the pair was compared before)
 func orderFacts(facts map[string]bool, a Atom) (map[string]bool, []Atom) {
 	// three families with the same order laws: integers, time instants, big integers
 	var lt, eq string
